@@ -17,7 +17,8 @@
    gtab_ok t    : the harness-supplied wrapped form of a gate is a TwoQubitQPDGate                                  *)
 From Coq Require Import QArith String.
 From CKT Require Import Model.CutFinder Extracted.Facts
-  Proofs.UFP Proofs.CutFinderSpec Proofs.CutFinderOut Proofs.CutFinderCirc Proofs.CutFinderRender Proofs.CutFinderP.
+  Proofs.UFP Proofs.CutFinderSpec Proofs.CutFinderOut Proofs.CutFinderCirc Proofs.CutFinderRender Proofs.CutFinderP
+  Proofs.CutFinderFail.
 Close Scope Q_scope.
 
 (* the output is the input with only markers added *)
@@ -58,6 +59,20 @@ Theorem c07_feasible : forall fuel i r,
   find_cuts_full fuel i = Val r -> circ_wf (fi_circ i) -> circ_plain (fi_circ i) -> gtab_ok (fi_gtab i) ->
   feasible (fi_W i) (fr_circ r).
 Proof. exact feasible_result. Qed.
+
+(* a ValueError only if no placement of the permitted cut kinds meets the width limit.
+   Hypotheses = the property's domain: multi-qubit gates are supported two-qubit gates (kappa known), no classical bits,
+   valid settings, at least one cut kind allowed.  (The proof shows more: the greedy pass can only dead-end when gate cuts
+   are not allowed and W = 1, where every plan leaves some two-qubit gate joining two segments.) *)
+Theorem c07_fails_only_if_infeasible : forall fuel i,
+  find_cuts_full fuel i = Ref ->
+  let t := fi_gtab i in let c := fi_circ i in
+  circ_wf c -> circ_plain c ->
+  (forall x, In x c -> is_multi x = true -> kappa_of t x <> None) ->
+  fi_ncl i = 0 -> 1 <= fi_W i -> settings_ok i = true ->
+  (fi_gate_lo i = true \/ fi_wire_lo i = true) ->
+  forall p, plan_permitted t (fi_gate_lo i) (fi_wire_lo i) c p -> ~ feasible (fi_W i) (render t p c).
+Proof. exact fails_only_if_infeasible. Qed.
 
 (* union-find: the path-collapsing loop of find_wire_root (left out of the model) is unobservable *)
 Theorem c07_compression_invisible : forall u w, uf_wf u ->
@@ -101,6 +116,14 @@ Proof. eexists; split; [vm_compute; reflexivity|]. repeat split. Qed.
 Example c07_ex_refused : find_cuts 100 (ex_in false true 1) = Some Refused.
 Proof. vm_compute. reflexivity. Qed.
 
+Example c07_ex_refused_hyps :
+  find_cuts_full 100 (ex_in false true 1) = Ref /\
+  (forall x, In x ex_circ -> is_multi x = true -> kappa_of ex_gtab x <> None) /\ settings_ok (ex_in false true 1) = true.
+Proof.
+  split; [vm_compute; reflexivity|]. split; [|reflexivity].
+  intros x Hx Hm. simpl in Hx. destruct Hx as [<-|[<-|[<-|[<-|[<-|[]]]]]]; cbn in Hm; try discriminate; cbn; discriminate.
+Qed.
+
 (* tie to the source: the constants and tables hard-coded in Model/CutFinder*.v *)
 Theorem c07_facts :
   (inject_Z (Z.of_nat cf_left_wire_mult) = left_wire_mult /\
@@ -133,5 +156,6 @@ Print Assumptions c07_erase_markers.
 Print Assumptions c07_metadata.
 Print Assumptions c07_accounting.
 Print Assumptions c07_feasible.
+Print Assumptions c07_fails_only_if_infeasible.
 Print Assumptions c07_compression_invisible.
 Print Assumptions c07_facts.
